@@ -58,8 +58,14 @@ package rsyncd
 //@ spec func addrOK(a: Str): bool = hostPortOK(a) && ipOK(hostOf(a))
 //@ spec func aclAllows(acls: []string, addr: Str): bool = len(acls) == 0 || addrOK(addr) && aclDecision(acls, ipIdOf(hostOf(addr)))
 
+// ghost record of the last ACL evaluation (definition, not a property of the body)
+//@ ghost aclBase: int
+//@ ghost aclLen: int
+//@ ghost aclAddr: Str
+//@ ghost aclOK: bool
 //@ func rsyncd.checkACL
-//@   pure
+//@   modifies ghost.aclBase, ghost.aclLen, ghost.aclAddr, ghost.aclOK
+//@   ensures[ghostdef] ghost.aclBase == base(acls) && ghost.aclLen == len(acls) && ghost.aclAddr == remoteAddr && (ghost.aclOK <==> err == nil)
 //@   ensures [empty-list-grants] len(acls) == 0 ==> err == nil
 //@   ensures [bad-address-denied] len(acls) > 0 && !addrOK(remoteAddr) ==> err != nil
 //@   ensures [first-match] len(acls) > 0 && addrOK(remoteAddr) ==> (err == nil <==> aclDecision(acls, ipIdOf(hostOf(remoteAddr))))
@@ -73,5 +79,5 @@ package rsyncd
 // Module data is only ever served (handleConn) after the ACL of the
 // requested module granted access to this connection's address.
 //@ func (*rsyncd.Server).HandleDaemonConn
-//@   at[C19] (*rsyncd.Server).handleConn: assert [acl-checked] aclAllows(module.ACL, conn.name)
+//@   at[C19] (*rsyncd.Server).handleConn: assert [acl-checked] ghost.aclOK && ghost.aclBase == base(module.ACL) && ghost.aclLen == len(module.ACL) && ghost.aclAddr == conn.name
 //@   at[C19] (*rsyncd.Server).handleConn: assert [requested-module] module.Name == requestedModule
